@@ -1512,12 +1512,92 @@ _ALPHA = [
 ]
 
 
+def alphabet_at(which, pos):
+    names = which.split(">")
+    return alphabet(names[min(pos, len(names) - 1)])
+
+
 def alphabet(which):
     """'full' | 'quick' | 'core'"""
     if which == "full":
         return [op for op, tags in _ALPHA]
     tag = {"quick": "q", "core": "t"}[which]
     return [op for op, tags in _ALPHA if tag in tags]
+
+
+# =====================================================================================================================
+# directed histories: run in every tier and for every seed (minimal witnesses of the defects known when the drivers were
+# written - so that the reported key set does not depend on the seed - and a few scenarios worth pinning)
+# =====================================================================================================================
+_GRP2 = [["grp2", "classification", [["reaction", "R1"], ["metabolite", "d_c"], ["gene", "g1"]]]]
+_XG = ["X", {"b_c": -1, "d_c": 2}, 0, 1000, "g9 or g2", "copy"]
+DIRECTED = [
+    # a raising Reaction.add_metabolites / subtract_metabolites has already changed the reaction
+    ("B0", "glpk", [["r_addmets", "R0", [["b_c", 1], ["zz", 1]], True, "id"]]),
+    ("B0", "glpk", [["r_submets", "R0", [["b_c", 1], ["zz", 1]], True, "id"]]),
+    ("B0", "glpk", [["r_addmets", "R0", [["b_c", -1], ["zz", 1]], True, "id"]]),
+    ("B0", "glpk", [["r_submets", "R0", [["b_c", 1], ["zz", 1]], True, "id"]]),
+    # combine=False inside a context for a metabolite the reaction does not have yet
+    ("B0", "glpk", [["enter"], ["r_addmets", "R0", [["c_c", 2]], False, "obj"]]),
+    ("B0", "glpk", [["enter"], ["r_submets", "R0", [["c_c", 2]], False, "obj"]]),
+    ("B0", "glpk", [["enter"], ["r_addmets", "R0", [["c_c", 2]], False, "obj"], ["exit"]]),
+    ("B0", "glpk", [["enter"], ["r_submets", "R0", [["c_c", 2]], False, "obj"], ["exit"]]),
+    ("B0", "glpk", [["enter"], ["r_addmets", "R0", [["d_c", 2]], False, "obj"], ["exit"]]),
+    ("B0", "glpk", [["enter"], ["r_submets", "R0", [["d_c", 2]], False, "obj"], ["exit"]]),
+    ("B0", "glpk", [["enter"], ["r_addmets", "R0", [["d_c", 0.5]], False, "copy"], ["enter"], ["exit"], ["exit"]]),
+    ("B0", "glpk", [["enter"], ["iadd", "R0", "R0"], ["r_submets", "R0", [["d_c", -2]], False, "obj"], ["exit"]]),
+    # the objective expression keeps the variables of a removed reaction
+    ("B1", "glpk", [["rm_rxn", ["R0"], False, "obj"], ["merge", "ra", None, True, "sum"]]),
+    ("B1", "glpk", [["rm_rxn", ["R0"], False, "obj"], ["merge", "ra", None, False, "sum"]]),
+    ("B1", "glpk_exact", [["rm_rxn", ["R0"], False, "obj"], ["solver", "glpk"]]),
+    ("B1", "glpk", [["rm_rxn", ["R0"], False, "obj"], ["solver", "glpk_exact"]]),
+    ("B1", "glpk", [["rm_rxn", ["R1"], True, "id"], ["enter"], ["obj_coef", "R2", 2], ["exit"]]),
+    ("B1", "glpk", [["rm_met", ["b_c"], True], ["merge", "rb", "p_", True, "left"]]),
+    # merge: rows of the right model copied as if they were custom constraints; discarded reaction copies stay referenced
+    ("B0", "glpk", [["rename_met", "b_c", "bx_c"], ["merge", "rb", None, True, "left"]]),
+    ("B0", "glpk", [["rename_met", "a_e", "a2_e"], ["merge", "rb", "p_", True, "left"]]),
+    ("B0", "glpk", [["merge", "rb", None, True, "left"]]),
+    ("B0", "glpk", [["merge", "rb", None, False, "left"]]),
+    # objective given as an expression: direction reset
+    ("B1", "glpk", [["obj_expr", {"R0": 1, "R1": 3}]]),
+    ("B1", "glpk", [["merge", "ra", None, True, "sum"]]),
+    # genes and groups
+    ("B0", "glpk", [["remove_genes", ["g1"], False, "id"]]),
+    ("B0", "glpk", [["remove_groups", ["grp1"], "str"]]),
+    ("B2", "glpk", [["rm_rxn", ["R1"], True, "obj"]]),
+    ("B0", "glpk", [["add_groups", _GRP2], ["rename_genes", {"g1": "g2"}]]),
+    # model-less operand of += / -= with a metabolite that is new to the model; re-adding after orphan removal
+    ("B0", "glpk", [["iadd", "R0", _XG]]),
+    ("B0", "glpk", [["isub", "R0", _XG]]),
+    ("B0", "glpk", [["rm_rxn", ["EX_a_e", "R0"], True, "obj"], ["readd", "R0"]]),
+    # leaving contexts
+    ("B0", "glpk", [["enter"], ["repair"], ["exit"]]),
+    ("B0", "glpk", [["enter"], ["add_groups", _GRP2], ["exit"]]),
+    ("B0", "glpk", [["enter"], ["iadd", "R0", _XG], ["rm_met", ["d_c"], False], ["exit"]]),
+    ("B0", "glpk", [["enter"], ["rm_rxn", ["R0"], False, "obj"], ["readd", "R0"], ["exit"]]),
+    ("B0", "glpk", [["enter"], ["isub", "R0", XR0], ["rename_met", "b_c", "bx_c"], ["exit"]]),
+    ("B2", "glpk", [["enter"], ["rm_rxn", ["R1"], True, "id"], ["rename_rxn", "R0", "R1"], ["exit"]]),
+    ("B1", "glpk_exact", [["enter"], ["add_boundary", "b_c", "demand", None, None, None], ["solver", "glpk"], ["exit"]]),
+    ("B1", "glpk_exact", [["enter"], ["rm_met", ["b_c"], False], ["solver", "glpk"], ["exit"]]),
+    ("B1", "glpk_exact", [["enter"], ["merge", "ra", None, True, "left"], ["solver", "glpk"], ["exit"]]),
+    ("B0", "glpk", [["enter"], ["bounds", "R0", 1, 10], ["solver", "glpk_exact"], ["exit"]]),
+    ("B0", "glpk", [["enter"], ["enter"], ["imul", "R0", 2], ["exit"], ["exit"]]),
+    ("B0", "glpk", [["enter"], ["enter"], ["rule", "R0", "g3 and g1"], ["exit"], ["exit"]]),
+    ("B0", "glpk", [["enter"], ["enter"], ["remove_genes", ["g1"], True, "id"], ["exit"], ["exit"]]),
+    ("B0", "glpk", [["enter"], ["enter"], ["rename_genes", {"g1": "g2"}], ["exit"], ["exit"]]),
+    ("B0", "glpk", [["enter"], ["enter"], ["merge", "rb", "p_", True, "left"], ["imul", "RR", 3], ["exit"], ["exit"]]),
+    # Model.copy / pickle hand out 1.797e308 for infinite bounds; after a solver switch the model cannot be copied any more
+    ("B1", "glpk", [["copy", "switch"], ["solver", "glpk_exact"], ["copy", "switch"]]),
+    ("B1", "glpk", [["copy", "switch"], ["solver", "glpk_exact"], ["pickle"]]),
+    ("B1", "glpk", [["copy", "switch"], ["solver", "glpk_exact"], ["deepcopy"]]),
+    ("B1", "glpk_exact", [["pickle"], ["solver", "glpk"], ["copy", "stay"]]),
+    # scenarios worth pinning (all branches of update_variable_bounds through every route that reaches it)
+    ("B0", "glpk", [["rename_rxn", "R0", "RX"], ["bounds", "R0", 1, 10], ["bounds", "R0", -10, -1], ["bounds", "R0", "-inf", "inf"]]),
+    ("B1", "glpk_exact", [["imul", "R0", -1], ["imul", "R1", -2], ["pickle"], ["lb", "R0", "-inf"], ["ub", "R1", "inf"]]),
+    ("B1", "glpk", [["copy", "switch"], ["solver", "glpk_exact"], ["bounds", "R2", 5, "inf"], ["deepcopy"], ["bounds", "R2", "-inf", -5]]),
+    ("B0", "glpk", [["enter"], ["g_ko", "g1"], ["g_ko", "g3"], ["r_ko", "R2"], ["exit"]]),
+    ("B0", "glpk_exact", [["rm_rxn", ["R0"], True, "obj"], ["readd", "R0"], ["bounds", "R0", 2, 2], ["rename_rxn", "R0", "RX"], ["imul", "R0", -1]]),
+]
 
 
 # =====================================================================================================================
@@ -1659,7 +1739,10 @@ def context_tag(wit):
 
 
 def refine(key, wit):
-    return key + "[" + context_tag(wit) + "]" if wit and wit[-1][0] == "exit" else key
+    """failures observed on leaving a context are keyed by what the (shrunk) witness did inside, not by the symptom"""
+    if wit and wit[-1][0] == "exit":
+        return key.split(":", 1)[0] + ":Model.__exit__[" + context_tag(wit) + "]"
+    return key
 
 
 def _new_agg():
@@ -1677,8 +1760,7 @@ def _worker(task):
     agg = _new_agg()
     if kind == "ex":
         _, mode, spec, solver, which, depth, wrap, first = task
-        alpha = alphabet(which)
-        a = alpha[first]
+        a = alphabet_at(which, 0)[first]
 
         def rec(prefix):
             hist = _wrap(prefix, wrap)
@@ -1688,11 +1770,21 @@ def _worker(task):
                 return
             if res["failures"] or res["skipped"] > 0:
                 # every extension repeats this failure / equals a shorter history: not executed, not counted
-                agg["pruned"] += len(alpha) ** (depth - len(prefix))
+                n = 1
+                for pos in range(len(prefix), depth):
+                    n *= len(alphabet_at(which, pos))
+                agg["pruned"] += n
                 return
-            for b in alpha:
+            for b in alphabet_at(which, len(prefix)):
                 rec(prefix + [b])
         rec([a])
+    elif kind == "dir":
+        _, mode, items = task
+        bases = {b["id"]: b for b in hand_bases()}
+        for base, solver, hist in items:
+            spec = bases[base] if isinstance(base, str) else base
+            res = safe_run(spec, solver, hist, mode)
+            _record(agg, spec, solver, hist, res)
     else:
         _, mode, specs, seed, chunk, n, max_depth = task
         rng = random.Random((seed * 7919 + chunk) * 104729 + 11)
@@ -1714,18 +1806,17 @@ def plan(tier, seed):
     """-> (exhaustive blocks [(spec, solver, alphabet name, depth, wrap)], random (specs, chunks, n per chunk, max depth))"""
     b0, b1, b2 = hand_bases()
     if tier == "quick":
-        ex = [(b0, "glpk", "quick", 2, 0), (b1, "glpk_exact", "quick", 2, 0),
-              (b0, "glpk_exact", "core", 2, 0), (b1, "glpk", "core", 2, 0), (b2, "glpk", "core", 2, 0), (b2, "glpk_exact", "core", 2, 0),
+        ex = [(b0, "glpk", "quick", 2, 0), (b1, "glpk_exact", "quick>core", 2, 0),
+              (b0, "glpk_exact", "core", 2, 0), (b1, "glpk", "core", 2, 0), (b2, "glpk", "core", 2, 0),
               (b0, "glpk", "core", 2, 1), (b1, "glpk_exact", "core", 2, 1)]
-        rnd = ([b0, b1, b2] + gen_bases(seed, 5), 64, 110, 6)
+        rnd = ([b0, b1, b2] + gen_bases(seed, 5), 64, 80, 6)
     else:
-        ex = [(b0, "glpk", "core", 3, 0), (b0, "glpk_exact", "core", 3, 0), (b1, "glpk", "core", 3, 0),
-              (b1, "glpk_exact", "core", 3, 1), (b2, "glpk", "core", 3, 0)]
+        ex = [(b0, "glpk", "core", 3, 0), (b1, "glpk_exact", "core", 3, 0), (b2, "glpk", "core", 3, 0), (b0, "glpk_exact", "core", 3, 1)]
         for b in (b0, b1, b2):
             for sv in ("glpk", "glpk_exact"):
                 ex.append((b, sv, "full", 2, 0))
-        ex += [(b0, "glpk", "full", 2, 1), (b0, "glpk_exact", "quick", 2, 2), (b1, "glpk", "quick", 2, 1)]
-        rnd = ([b0, b1, b2] + gen_bases(seed, 24), 400, 250, 8)
+        ex += [(b0, "glpk", "full", 2, 1), (b1, "glpk_exact", "quick", 2, 2)]
+        rnd = ([b0, b1, b2] + gen_bases(seed, 24), 320, 250, 8)
     return ex, rnd
 
 
@@ -1751,19 +1842,24 @@ def explore(mode, tier, seed, processes=16):
     ex, (rspecs, chunks, nper, maxd) = plan(tier, seed)
     tasks = []
     for spec, solver, which, depth, wrap in ex:
-        for first in range(len(alphabet(which))):
+        for first in range(len(alphabet_at(which, 0))):
             tasks.append(("ex", mode, spec, solver, which, depth, wrap, first))
     n_ex_tasks = len(tasks)
+    for c in range(0, len(DIRECTED), 8):
+        tasks.append(("dir", mode, DIRECTED[c:c + 8]))
+    n_dir_tasks = len(tasks) - n_ex_tasks
     for c in range(chunks):
         tasks.append(("rnd", mode, rspecs, seed, c, nper, maxd))
     # long tasks first
     total = _new_agg()
-    ex_eval = rnd_eval = 0
+    ex_eval = rnd_eval = dir_eval = 0
     with multiprocessing.get_context("fork").Pool(processes) as pool:
         for idx_agg in pool.imap_unordered(_worker_idx, list(enumerate(tasks)), chunksize=1):
             idx, agg = idx_agg
             if idx < n_ex_tasks:
                 ex_eval += agg["evaluations"]
+            elif idx < n_ex_tasks + n_dir_tasks:
+                dir_eval += agg["evaluations"]
             else:
                 rnd_eval += agg["evaluations"]
             for k in ("evaluations", "steps", "raised", "checks", "nontrivial", "pruned", "cpu"):
@@ -1800,9 +1896,10 @@ def explore(mode, tier, seed, processes=16):
                  "(exhaustive sequences are distinct by construction, random ones by hash)."),
         "bounds": {"tier": tier, "seed": seed, "universe": {"reactions": "<=4 base + N1,N2,boundary/merge products", "metabolites": "3 + d_c",
                                                           "genes": "g1..g4 + g9", "groups": "<=2", "contexts": "<=3 nested"},
-                   "exhaustive_blocks": [{"base": s["id"], "solver": sv, "alphabet": w, "alphabet_size": len(alphabet(w)), "depth": d,
+                   "exhaustive_blocks": [{"base": s["id"], "solver": sv, "alphabet": w,
+                                          "alphabet_sizes": [len(alphabet_at(w, i)) for i in range(d)], "depth": d,
                                           "context_levels": wr} for s, sv, w, d, wr in ex],
-                   "exhaustive_histories_executed": ex_eval, "extensions_not_executed_after_failure_or_inapplicable_prefix": total["pruned"],
+                   "exhaustive_histories_executed": ex_eval, "directed_histories_executed": dir_eval, "extensions_not_executed_after_failure_or_inapplicable_prefix": total["pruned"],
                    "random_histories_executed": rnd_eval, "random_max_depth": maxd, "random_bases": len(rspecs),
                    "steps_executed": total["steps"], "steps_that_raised": total["raised"], "oracle_evaluations": total["checks"],
                    "wall_seconds": round(time.time() - t0, 1), "worker_cpu_seconds": round(total["cpu"], 1)},
